@@ -27,7 +27,7 @@ RLIMIT_PER_MS = int(os.environ.get("PYVC_RLIMIT_PER_MS", "2000"))
 def _budget(s, timeout_ms):
     """deterministic resource limit (does not depend on machine load) + generous wall-clock backstop"""
     s.set("rlimit", int(timeout_ms) * RLIMIT_PER_MS)
-    s.set("timeout", int(timeout_ms) * 5 + 5000)
+    s.set("timeout", int(timeout_ms) * 2 + 2000)
 
 
 def _mk_solver(timeout_ms, nonlinear):
@@ -275,13 +275,102 @@ def resolve_ites(pc, goal, rounds=6):
     return goal
 
 
+_SYMS = {}
+
+
+def _symbols(e):
+    k = e.get_id()
+    if k in _SYMS:
+        return _SYMS[k]
+    out = set()
+    stack = [e]
+    seen = set()
+    while stack:
+        t = stack.pop()
+        if t.get_id() in seen:
+            continue
+        seen.add(t.get_id())
+        if z3.is_app(t):
+            d = t.decl()
+            if d.kind() == z3.Z3_OP_UNINTERPRETED and d.name() not in reals.TRANS_NAMES:
+                out.add(d.name())
+            stack.extend(t.children())
+        elif z3.is_quantifier(t):
+            stack.append(t.body())
+    if len(_SYMS) > 100000:
+        _SYMS.clear()
+    _SYMS[k] = out
+    return out
+
+
+def _slice(pc, goal, hops):
+    rel = set(_symbols(goal))
+    chosen = [False] * len(pc)
+    for _ in range(hops):
+        add = set()
+        for i, f in enumerate(pc):
+            if not chosen[i] and (_symbols(f) & rel):
+                chosen[i] = True
+                add |= _symbols(f)
+        rel |= add
+    return [f for i, f in enumerate(pc) if chosen[i]]
+
+
+def _try_ideal(pc, goal, timeout_s=20):
+    from . import ideal
+    t0 = time.time()
+    g = z3.simplify(goal)
+    if not (z3.is_eq(g) or z3.is_and(g)):
+        return None
+
+    def nonneg(t):
+        return check_sat(list(pc) + [t < 0], timeout_ms=1500, use_cvc5=False, levels=(0,)).status == "unsat"
+
+    def nonzero(t):
+        return check_sat(list(pc) + [t == 0], timeout_ms=1500, use_cvc5=False, levels=(0,)).status == "unsat"
+    try:
+        ok, why = ideal.prove_equalities(list(pc), g, nonneg, nonzero, timeout_s=timeout_s)
+    except Exception as e:       # pragma: no cover
+        return None
+    if ok:
+        return Result("unsat", "sympy-groebner(%s)" % why, time.time() - t0)
+    return None
+
+
 def prove(pc, goal, timeout_ms=None, extra_axioms=()):
     """validity of (pc -> goal)"""
+    pc = list(pc)
+    # relevance slices first: hypotheses within k hops (shared symbols) of the goal.  Dropping
+    # hypotheses is sound for `unsat`; other answers fall through to the full problem.
+    if len(pc) > 6:
+        for k in (1, 2):
+            sl = _slice(pc, goal, k)
+            if len(sl) < len(pc):
+                rs = check_sat(sl + [z3.Not(goal)], timeout_ms=2500, want_model=False,
+                               extra_axioms=extra_axioms, use_cvc5=False)
+                if rs.status == "unsat":
+                    rs.backend += "+slice%d" % k
+                    return rs
+                ri = _try_ideal(sl, goal, timeout_s=4)
+                if ri is not None:
+                    return ri
+    r = check_sat(pc + [z3.Not(goal)], timeout_ms=1500, want_model=True,
+                  extra_axioms=extra_axioms, use_cvc5=False)
+    if r.status != "unknown":
+        return r
+    # polynomial identities: ideal membership (cheap when it applies)
+    ri = _try_ideal(pc, goal, timeout_s=6)
+    if ri is not None:
+        return ri
     r = check_sat(list(pc) + [z3.Not(goal)], timeout_ms=(timeout_ms or Z3_TIMEOUT_MS) // 4, want_model=True,
                   extra_axioms=extra_axioms, use_cvc5=False)
     if r.status != "unknown":
         return r
     g2 = resolve_ites(pc, goal)
+    if not g2.eq(goal):
+        ri = _try_ideal(pc, g2)
+        if ri is not None:
+            return ri
     if not g2.eq(goal):
         r2 = check_sat(list(pc) + [z3.Not(g2)], timeout_ms=timeout_ms, want_model=True, extra_axioms=extra_axioms)
         r2.backend += "+ite-resolution"
